@@ -273,7 +273,6 @@ Section RequestProofs.
     apply existsb_exists in Ex as (id & Hin & Hid). rewrite <- Ef in Hin. apply filter_In in Hin as [_ Hp].
     destruct (lookup_key pkT store origin id) as [e|] eqn:El; [|discriminate].
     apply andb_true_iff in Hid as [Hv Hj]. unfold Request.verify_json in Hj.
-    destruct (negb (forallb _ sigs)); [discriminate|].
     destruct (assoc_first id sigs) as [text|] eqn:Ea; [|discriminate].
     destruct (b64_decode text) as [raw|] eqn:Eb; [|discriminate].
     destruct (sig_unwire raw) as [sg|] eqn:Eu; [|discriminate].
@@ -525,6 +524,7 @@ Section RequestProofs.
     unfold Request.fr_sign. intros Hsign Hb.
     destruct (negb (is_nil (f_origin r0)) && negb (bytes_eqb (f_origin r0) origin)); [discriminate|].
     destruct (negb _); [discriminate|].
+    destruct (content_not_utf8 _); [discriminate|].
     destruct (signing_bytes _ _ _ _ _); [|discriminate].
     inversion Hsign; subst r1; clear Hsign. cbn [f_content] in Hb.
     destruct (f_content r0) as [raw|]; [|discriminate].
@@ -553,6 +553,7 @@ Section RequestProofs.
     unfold Request.fr_sign in Hsign.
     destruct (negb (is_nil (f_origin r0)) && negb (bytes_eqb (f_origin r0) origin)); [discriminate|].
     rewrite Hsigs in Hsign. cbn [forallb negb map assoc_set] in Hsign.
+    destruct (content_not_utf8 (f_content r0)); [discriminate|].
     destruct (signing_bytes (f_content r0) (f_dest r0) (f_method r0) origin (f_uri r0)) as [msg|] eqn:Emsg;
       [|discriminate].
     rewrite (plain_to_valid _ Hpd), (to_valid_utf8_id _ Hmu), (plain_to_valid _ Hpo),
@@ -619,7 +620,7 @@ Section RequestProofs.
     (* the key ring *)
     unfold Request.keyring_verify. cbn [map fst filter]. rewrite Hkp. rewrite Hdb.
     cbn [existsb]. rewrite Hlook, Hvalid. unfold Request.verify_json.
-    cbn [forallb snd assoc_first]. unfold text at 1. rewrite wire_b64. cbn [is_some andb negb].
+    cbn [snd assoc_first].
     rewrite bytes_eqb_refl. unfold text. rewrite wire_b64, wire_ok, Hpub, sig_complete. cbn [andb orb].
     eexists. split; [reflexivity|]. cbn [f_method f_uri f_origin f_dest f_content]. repeat split; reflexivity.
   Qed.
